@@ -15,10 +15,117 @@ def gen(rng):
     return eng_gen.gen_history(rng, profile=rng.choice(['default', 'default', 'source', 'projection', 'bad']))
 
 
+def stats_internal_error(script):
+    """the statistics surface (fit.stats.*, item.get_volley / get_dps / hp / resists / ehp) on the histories of
+    C04's generator: a getter that exists on the object it is called on never raises (no exception is
+    documented for any of them); ZeroDivisionError marks data outside 'well-formed'. -> None or a description"""
+    import c04_impl
+    import eng_impl
+    eng_impl.set_penalty_base(0.5)
+    impl = c04_impl.StatImpl()
+    n = 0
+    for k, (line, kind) in enumerate(script):
+        out = impl.run(line)
+        if kind != 'obs' or not line.startswith('st '):
+            continue
+        n += 1
+        if not out.startswith('exn ') or 'ZeroDivisionError' in out:
+            continue
+        if out[4:] in ('KeyError', 'IndexError'):
+            continue              # documented for absent things (an attribute the data does not define)
+        t = line.split()
+        if 'ValueError' in out:
+            # DmgProfile / ResistProfile refuse values outside their documented range (a resonance above 1
+            # or below 0 in the data): documented ValueError, data outside 'well-formed'
+            try:
+                impl.stat_cmd(t)
+                msg = ''
+            except Exception as e:  # noqa
+                msg = str(e)
+            if 'must be within range' in msg or 'must be non-negative' in msg or 'positive' in msg:
+                continue
+        if t[1].startswith('i'):
+            obj = impl.items.get(int(t[2]))
+            need = 'hp' if t[1] in ('ihp', 'iresists', 'iehp', 'iwcehp') else 'get_volley'
+            if obj is None or not hasattr(type(obj), need):
+                continue          # the getter does not exist on this class: not a valid call
+        return dict(index=k, fails='%r raised %s' % (line, out[4:]), reads=n)
+    return dict(index=None, fails=None, reads=n)
+
+
+def shrink_stats(script, budget=400):
+    """greedy shrinking of a failing statistics history: drop blocks of lines (never the last one) while
+    the same read still fails the same way"""
+    want = stats_internal_error(script)['fails']
+    if not want:
+        return script
+    cur = list(script)
+    size = max(1, len(cur) // 2)
+    tries = 0
+    while size >= 1 and tries < budget:
+        k = 0
+        changed = False
+        while k < len(cur) - 1 and tries < budget:
+            cand = cur[:k] + cur[min(len(cur) - 1, k + size):]
+            tries += 1
+            try:
+                r = stats_internal_error(cand)
+            except Exception:  # noqa
+                r = {'fails': None}
+            if r['fails'] == want and r['index'] == len(cand) - 1:
+                cur = cand
+                changed = True
+            else:
+                k += size
+        if not changed or size == 1:
+            size //= 2
+    return cur
+
+
 def run(rep):
     engcheck.run(rep, 'C10', PROP_FILE, gen, 150, 8000, ['some', 'end', 'all'], eng_oracle.oracle_c10, RULE, direct=0,
                  internal_is_violation=True)
+    if rep.violations:
+        return
+    import json
+    import os
+    import random
+    import c04_gen
+    import common
+    # witnesses of the findings about the statistics surface: a fixed one must hold now
+    for kf in common.known_findings('C10'):
+        if not kf.get('witness', '').startswith('corpus/stats/'):
+            continue
+        sc = [tuple(x) for x in json.load(open(os.path.join(common.VERIF, kf['witness'])))['case']['script']]
+        r = stats_internal_error(sc)
+        if r['fails']:
+            if kf['status'] == 'open':
+                rep.known_finding(kf['line'])
+            else:
+                rep.violation({'kind': 'stats_history', 'script': sc, 'fails': r['fails'],
+                               'note': 'witness of %s fails again' % kf['id']})
+                return
+    rng = random.Random(rep.seed + 77)
+    n = 60 if rep.tier == 'quick' else 2000
+    reads = 0
+    for h in range(n):
+        ul, script, meta = c04_gen.gen_history(rng)
+        full = script
+        r = stats_internal_error(full)
+        reads += r['reads']
+        if r['fails']:
+            rep.violation({'kind': 'stats_history', 'script': shrink_stats(full[:r['index'] + 1]),
+                           'fails': r['fails']})
+            return
+    rep.cov['stat_reads_checked_for_internal_errors'] = reads
+    rep.cov['stat_histories'] = n
 
 
 def replay(path):
+    import json
+    r = json.load(open(path))
+    if r.get('kind') == 'stats_history':
+        res = stats_internal_error([tuple(x) for x in r['script']])
+        print('oracle:', res['fails'] or 'property holds on this input')
+        return 1 if res['fails'] else 0
     return engcheck.replay(path, eng_oracle.oracle_c10)
